@@ -453,6 +453,8 @@ def body(c):
             target = cats[op["t"] % len(cats)]
             cat = dic[target].x if target != "tree" else tree._internal_heights
             parts = list(cat._parameter_container.params()) if hasattr(cat, "_parameter_container") else []
+            if any(isinstance(q, ViewParameter) and q.parameter.tensor.requires_grad for q in parts):
+                continue  # the assignment is written into the view in place: torch forbids that on a leaf that requires grad
             if target == "tree":
                 nn = tree.taxa_count
                 v = torch.cat([new_values("unit", (nn - 2,), op["u"], None, dic), new_values("root", (1,), op["u"][::-1], None, dic)])
@@ -554,6 +556,8 @@ def body(c):
             target = cats[op["t"] % len(cats)]
             cat = dic[target].x if target != "tree" else tree._internal_heights
             shp = tuple(cat.tensor.shape)
+            if any(isinstance(q, ViewParameter) and q.parameter.tensor.requires_grad for q in cat._parameter_container.params()):
+                continue
             bad = new_values("pos", (4,) + shp if op["flag"] else (shp[0] + 1,) + shp[1:], op["u"], None, dic)
             before = {l: dic[l].tensor.detach().clone() for l in leaves_of(spec)}
 
